@@ -18,6 +18,24 @@ CHECKS = {
  "C09": dict(tech=TECH+"same phase transition relation as C08 searched for will-protocol order and at-most-one-CONNECT; origin tracing for CONNECT fields; dispatcher exploration for the CONNACK mapping",
    text="Decides ordering and multiplicity over all packet orders (WILLTOPICREQ -> WILLTOPIC -> WILLMSGREQ -> WILLMSG -> one CONNECT; nothing of it without the will flag), field faithfulness of the CONNECT, and the CONNACK code mapping for every broker return code explored (0..6, 0x80, 0xfe, 0xff).",
    note="Trusted: go/ssa. Timeouts are C10's.", ref="4/C09"),
+ "C11": dict(tech=TECH+"who-may-write rule for connections, per-state path exploration of the MQTT-SN sender and of the PINGREQ/CONNECT/PINGRESP handlers (event-order rule), loop-shape rule for the flush, lockset (must-hold locks per field access) for the buffer",
+   text="Nothing-sent-while-asleep and the wake-up order (Awake, flush in index order, clear, PINGRESP, Asleep again) are decided on every path of the handlers for every state; the race clause by a lockset that is schedule independent. Delivered-once under retry timers firing while asleep is a history property and is not decided.",
+   note="Trusted: go/ssa. The sleep buffer is found by type ([]packets.Packet field of a gateway struct). Known finding: the buffer has no lock (C11-R3).", ref="4/C11"),
+ "C12": dict(tech=TECH+"path exploration of the DISCONNECT(duration) and PINGREQ handlers over a grid of (duration, keep-alive) valuations; origin tracing of the timer's stop function and of the pinger period",
+   text="Only the wiring clauses: PINGREQ forwarded when active/awake, a pinger armed on every path whenever duration > keep-alive, stopped by its own stop function after exactly the announced duration, pinging every keep-alive seconds. The 1.5x keep-alive window itself is a bound over timed histories that no static argument in reach decides; sleep cycles not covered by a pinger are a known finding.",
+   note="Trusted: go/ssa. Grid of valuations is finite (keep-alive 10; durations 1..1000) but the guards are comparisons of the two cells only.", ref="4/C12"),
+ "C14": dict(tech=TECH+"session automaton extraction (path exploration of both dispatchers), type-flow sets for every argument of the MQTT sender, who-may-write rule for connections",
+   text="Decides the property at the structural level for all histories and termination causes: a *DisconnectPacket can reach the MQTT sender only on the path handling a client DISCONNECT with Duration 0, every other send site can only carry other packet types, and nothing else writes to a connection.",
+   note="Trusted: go/ssa, paho's encoder and NewControlPacket (constant code -> type table frozen in the checker). Type-flow is field-based and fails closed on unknown flows.", ref="4/C14"),
+ "C20": dict(level="proof", tech="panic-site enumeration over go/ssa of the closure of ReadPacket + the Go compiler's prove pass as oracle (-d=ssa/check_bce) + three replayed arguments (io.Reader contract, header-form invariant, guarded length-prefixed slice) + result-or-error discipline by path exploration",
+   text="Every instruction that can panic while decoding a datagram is an obligation and each is discharged by a named argument; obligations == discharged is required, so a green result is a proof (relative to the trusted base) that no byte string makes ReadPacket panic. The argument does not depend on the 8192 bound.",
+   note="Trusted base: go/types, go/ssa, the installed Go compiler's bounds-check elimination, the io.Reader contract (the one assumed obligation), fmt not panicking. Thorough adds GOARCH=386.", ref="4/C20"),
+ "C21": dict(tech=TECH+"codec layout extraction by finite-domain path exploration of every Pack/Unpack (28 types x variants), structural mask/shift extraction for flags, sibling comparison encoder vs decoder, header threshold evaluation, shape rule for the short-topic codec",
+   text="Encoder/decoder table agreement (fields, order, offsets, widths, flag masks/shifts, length formula, type tags, header form threshold, short-topic byte order). Necessary for round-trip equality and sufficient for all fields handled value-independently; equality for every concrete value is not decided.",
+   note="Trusted: go/ssa; variable-length fields are given length 3 while exploring (layout does not depend on it).", ref="4/C21"),
+ "C22": dict(tech=TECH+"decoder layout extraction (as C21) compared with a specification table frozen in the checker; exploration of Header.Unpack/HeaderLength for both header forms; shape rule for ReadPacket's body slice",
+   text="Position faithfulness of every decoded field for every accepted datagram, and the body offset equal to the parsed header size for both header forms whatever the length value.",
+   note="Trusted: go/ssa and the transcription of MQTT-SN 1.2 section 5 / doc/auth.md into the checker's table.", ref="4/C22"),
 }
 
 NA = {
